@@ -385,6 +385,9 @@ PROPS['C10'] = dict(
                         'znx_extract_digit_addmul_avx', 'znx_normalize_digit_avx', 'znx_normalize_{first,middle,final}_step*_avx (13 kernels)']),
            K('poulpy-cpu-avx', 'verif_kani', [f'c10_norm_{g}__b{b}_len5' for b in (17, 1, 52, 62) for g in ('first', 'middle', 'final')] + ['c10_digit__b52_len5'],
              cls='bounded', tier='thorough', timeout=2400, bound='slice length 5, radices 17, 1, 52, 62 (the 13 normalisation step kernels: 10-25 min per harness)'),
+           K('poulpy-cpu-avx', 'verif_kani', ['c10_norm_middle_sub__b52_lsh20_len4', 'c10_norm_middle_sub__b17_lsh5_len4'], cls='bounded', timeout=900,
+             bound='the subtracting middle step alone, one SIMD vector (length 4), radix / shift (52, 20) and (17, 5), digits |x| < 2^62, carries < 2^61 (about 10 s each)',
+             functions=['znx_normalize_middle_step_sub_avx vs znx_normalize_middle_step_sub_ref']),
            K('poulpy-cpu-avx', 'verif_kani', ['c10_cnv_const_1coeff__a1_b3', 'c10_cnv_blk_moves'], cls='bounded', timeout=1500,
              bound='by-constant convolution: a_size 1, b_size 3, every output limb index 0..=a+b, values in the documented i32 domain; block moves: n=16, 2 rows x 2 columns, every block / column',
              functions=['i64_convolution_by_const_1coeff_avx', 'i64_extract_1blk_contiguous_avx', 'i64_save_1blk_contiguous_avx (poulpy-cpu-avx/src/fft64/convolution.rs) vs their reference twins']),
